@@ -38,6 +38,7 @@ type paramInfo struct {
 // Ctx accumulates declarations, facts and obligations for one function.
 type Ctx struct {
 	eng            *Engine
+	alias          *aliasSets
 	pkg            *pkgInfo
 	fn             string // qualified name, e.g. sequtil.ReverseComplement
 	props          []string
@@ -62,7 +63,7 @@ type Ctx struct {
 }
 
 func newCtx(eng *Engine, pkg *pkgInfo, fn string, props []string) *Ctx {
-	return &Ctx{eng: eng, pkg: pkg, fn: fn, props: props, counts: map[string]int{}, used: map[string]bool{},
+	return &Ctx{alias: newAliasSets(), eng: eng, pkg: pkg, fn: fn, props: props, counts: map[string]int{}, used: map[string]bool{},
 		externs: map[string]bool{}, inlined: map[string]bool{}, strLits: map[string]string{}, declSet: map[string]bool{}}
 }
 
